@@ -9,7 +9,9 @@ from ..model import Crate
 from ..wrules import FnModView, check_fnmod_delegation, trait_methods, impl_methods, in_macro, last_seg
 
 RAW = ["r#type", "r#match", "r#loop"]
-SYMS = ["ident", "mut", "ref", "raw", "wild", "tuple", "newtype", "newtype2", "struct", "refpat", "fnname", "argname", "fnname_in_newtype"]
+SYMS = ["ident", "mut", "ref", "raw", "wild", "tuple", "newtype", "newtype2", "struct", "refpat", "fnname", "argname", "fnname_in_newtype",
+        # a single inner binding that carries a binding mode / the top-level `@` form
+        "newtype_mut", "struct_ref", "tuple_mut_wild", "newtype_ref_mut", "ident_at"]
 
 
 def param(sym, i, n, fname):
@@ -34,6 +36,16 @@ def param(sym, i, n, fname):
         return ("S%d { x%d }" % (i, i), "S%d" % i, "keep", "x%d" % i)
     if sym == "refpat":
         return ("&a%d" % i, "&u8", "keep", "a%d" % i)
+    if sym == "newtype_mut":
+        return ("N(mut a%d)" % i, "N", "keep", "a%d" % i)
+    if sym == "struct_ref":
+        return ("S%d { ref x%d }" % (i, i), "S%d" % i, "keep", "x%d" % i)
+    if sym == "tuple_mut_wild":
+        return ("(mut a%d, _)" % i, "(u8, u8)", "keep", "a%d" % i)
+    if sym == "newtype_ref_mut":
+        return ("N(ref mut a%d)" % i, "N", "keep", "a%d" % i)
+    if sym == "ident_at":
+        return ("a%d @ N(_)" % i, "N", "keep", "a%d" % i)
     if sym == "fnname":
         return (fname, "u8", "fresh", None)
     if sym == "argname":
